@@ -42,6 +42,7 @@ import (
 	"github.com/openfga/openfga/internal/cachecontroller"
 	"github.com/openfga/openfga/internal/check"
 	"github.com/openfga/openfga/internal/condition"
+	"github.com/openfga/openfga/internal/featureflags"
 	"github.com/openfga/openfga/internal/graph"
 	"github.com/openfga/openfga/internal/modelgraph"
 	"github.com/openfga/openfga/internal/shared"
@@ -306,6 +307,7 @@ func (c *caseEnv) runV1(ctx context.Context, cached bool, universe []string, sub
 			w := p.Worlds[st.Item.W]
 			e := c.env(w)
 			q, err := commands.NewListObjectsQuery(e.DS, resolver, e.StoreID,
+				commands.WithFeatureFlagClient(featureflags.NewDefaultClient(nil)), commands.WithListObjectsPipelineEnabled(false),
 				commands.WithListObjectsDeadline(20*time.Second), commands.WithListObjectsMaxResults(0),
 				commands.WithResolveNodeLimit(uint32(p.Depth)), commands.WithListObjectsCache(res, settings))
 			if err != nil {
